@@ -184,7 +184,9 @@ func checkEscapeDecoder(c *Ctx, p *Prog, dc decoderCopy) {
 		b1   int64
 		size int64
 		want string
-	}{{"escape", '\\', 0, "escaped"}, {"plain rune of the right size", 'x', 3, "R"}, {"size mismatch", 'x', 2, "panic"}} {
+		r    int64
+	}{{"escape", '\\', 0, "escaped", 'x'}, {"plain rune of the right size", 'x', 3, "R", 0x20ac}, {"size mismatch", 'x', 2, "panic", 0x20ac},
+		{"the character U+FFFD itself (three bytes, also what DecodeRune returns for an error)", 0xef, 3, "R", 0xfffd}} {
 		reg := &Region{Fn: top, Summaries: map[string]Summary{
 			"*.escapeCharVal": func(r *Run, cc *ssa.CallCommon, args []Val) (Val, error) { return VSym{Name: "escaped"}, nil },
 			"unicode/utf8.DecodeRune": func(r *Run, cc *ssa.CallCommon, args []Val) (Val, error) {
@@ -195,7 +197,7 @@ func checkEscapeDecoder(c *Ctx, p *Prog, dc decoderCopy) {
 			},
 			"fmt.Sprintf": SprintfSummary,
 		}}
-		out := InterpretSafe(reg, &MapWorld{Ints: map[string]int64{"lit[1]": wd.b1, "SIZE": wd.size, "len(lit)": 5}})
+		out := InterpretSafe(reg, &MapWorld{Ints: map[string]int64{"lit[1]": wd.b1, "SIZE": wd.size, "len(lit)": 5, "R": wd.r}})
 		got := out.Term
 		if out.Term == "return" && len(out.Results) == 1 {
 			got = out.Results[0]
